@@ -195,7 +195,9 @@ var c18Modes = []string{"roundtrip+seek", "leak", "keys", "tamper-bytes", "tampe
 	// a column chunk with more than 256 pages: modules whose ordinals differ by 256 are exchanged
 	"tamper-swap-256",
 	// the writer is reused through Reset: the second file must read back too
-	"roundtrip-after-reset"}
+	"roundtrip-after-reset",
+	// the rows go through BeginRowGroup / Commit (row groups that can be filled in parallel)
+	"begin-row-group"}
 
 func c18Run(x *engine.X) {
 	cfgs := c18Configs()
@@ -236,6 +238,43 @@ func c18Run(x *engine.X) {
 	}
 
 	switch mode {
+	case "begin-row-group":
+		bshape := "mode=begin-row-group" // the outcome does not depend on the configuration
+		var buf bytes.Buffer
+		w := parquet.NewGenericWriter[ERow](&buf, append(append([]parquet.WriterOption{}, cfg.opts...), parquet.WithEncryption(cfg.encryption("fileid-A")))...)
+		schema := parquet.SchemaOf(ERow{})
+		// row groups of 5 rows (below every configured MaxRowsPerRowGroup), begun and committed one after the other
+		for lo := 0; lo < len(rows); lo += 5 {
+			rgw := w.BeginRowGroup()
+			for i := lo; i < lo+5 && i < len(rows); i++ {
+				if _, err := rgw.WriteRows([]parquet.Row{schema.Deconstruct(nil, &rows[i])}); err != nil {
+					x.Failf("write-error", bshape, "WriteRows: %v", err)
+					return
+				}
+			}
+			if _, err := rgw.Commit(); err != nil {
+				x.Failf("write-error", bshape, "Commit: %v", err)
+				return
+			}
+		}
+		if err := w.Close(); err != nil {
+			x.Failf("write-error", bshape, "Close: %v", err)
+			return
+		}
+		out := buf.Bytes()
+		for _, r := range rows {
+			for _, tok := range []string{r.Secret, r.Plain} {
+				if bytes.Contains(out, []byte(tok)) {
+					x.Failf("leak", bshape, "rows written through BeginRowGroup/Commit: the raw file contains the plaintext %q of an encrypted column", tok)
+					return
+				}
+			}
+		}
+		g, err := c18ReadAll(out, cfg.keys(), cfg.bloom, rows)
+		if err != nil || !equalStrings(g, exp) {
+			x.Failf("roundtrip", bshape, "rows written through BeginRowGroup/Commit do not read back with the right keys: err=%v rows=%d/%d", err, len(g), len(exp))
+			return
+		}
 	case "roundtrip-after-reset":
 		var buf bytes.Buffer
 		w := parquet.NewGenericWriter[ERow](&buf, append(append([]parquet.WriterOption{}, cfg.opts...), parquet.WithEncryption(cfg.encryption("fileid-A")))...)
